@@ -1782,7 +1782,9 @@ int main(int argc, char** argv) {
     cfg1.push_back(Config{3, 2, 6, 0, 2}); cfg1.push_back(Config{3, 4, 10, 0, 2}); cfg1.push_back(Config{0, 20, 6, 0, 2}); cfg1.push_back(Config{0, 36, 10, 0, 2});
     bound = "k<=1 slot; x64 native: K=3 with total GP pressure {2,3,4,6} (= data values + buffer pointer; loop counters/selectors/call targets on top) x args {6, 10 (4 on the stack)}; full file with 20 (6 args), 70 (10 args) and 130 (6 args) data values; "
             "xmm/ymm/zmm/k-mask value modes at K=3 (vector file 3, mask file 2; 4 vector / 3 mask values) and full file (18/18/34 vector, 9 mask values); 32-bit virtual registers at K=3 (pressure 3, 5) and full file (20); "
-            "x86-32 simulated: K=3 (pressure 3, 5), full file (10 values); AArch64 simulated: K=3 (pressure 3, 5), full file (20, 36 values)";
+            "x86-32 simulated: K=3 (pressure 3, 5), full file (10 values); AArch64 simulated: K=3 (pressure 3, 5), full file (20, 36 values); mixed 64/32-bit values at K=3 (2, 3, 5 values) and full file (20); "
+            "swap-loop at K in {0,3,4}; call-args: 7 source types x wider-or-equal parameter types x {2nd register, 8th = stack} at K=3 and full file; many-args: K=3 (15 values) and full file (20), uint64 / uint32 / int16_t-in-uint32 / int16_t-in-int32 arguments; "
+            "large or 10-argument configurations use a subset of the operand patterns";
   } else {
     for (int K : {2, 3, 4}) add_k(cfg1, K, {6, 10});
     for (int n : {20, 70, 130}) for (int am : {6, 10}) cfg1.push_back(Config{0, n, am, 0});
@@ -1833,8 +1835,8 @@ int main(int argc, char** argv) {
   c.n("transitions") = c.n("traces");
   for (auto& kv : g_shape_count) c.n(("shape_" + kv.first).c_str()) = kv.second;
   c.strs["bound"] = bound + (g_stop ? " (capped by the deadline)" : "");
-  c.strs["rule"] = "programs = arch{x64 native, x86-32 simulated, AArch64 simulated} x shape{straight,diamond,loop,nested-loop,loop-cond,irreducible,jumptable3,jumptable2,call-mid,call-loop,two-calls,loop-local-early,loop-local-late (a value live only around the back edge)} x register file K x pressure x "
-                   "argument mode x value mode{gp64, xmm, ymm, zmm, k-mask, gp32} x slot fillings (alphabet of " + std::to_string(kAlphaCount) + " instruction forms x operand pattern{first/second/last/same-twice}); every program is built with the Compiler and allocated; "
+  c.strs["rule"] = "programs = arch{x64 native, x86-32 simulated, AArch64 simulated} x shape{straight,diamond,loop,nested-loop,loop-cond,irreducible,jumptable3,jumptable2,call-mid,call-loop,two-calls,loop-local-early,loop-local-late (a value live only around the back edge),swap-loop (fixed-register instructions force a register exchange at the back edge),call-args (argument marshalling: typed 8/16/32/64-bit register x wider parameter x register/stack position),many-args (16 arguments, 32-byte aligned stack variable, call with stack arguments; also int16_t arguments in 32-bit registers)} x register file K x pressure x "
+                   "argument mode x value mode{gp64, xmm, ymm, zmm, k-mask, gp32, mixed gp64/gp32} x slot fillings (alphabet of " + std::to_string(kAlphaCount) + " instruction forms x operand pattern{first/second/last/same-twice}); every program is built with the Compiler and allocated; "
                    "x64: assembled and executed natively on 4 data tuples x every control input (branch both ways, loops 0/1/3 trips, every jump-table target); x86-32/AArch64: the allocated node list is interpreted by engine/msim.h on the same inputs; "
                    "compared with the direct interpretation of the IR: return value, memory buffer (+ guards / any store outside buffer and stack), external-call log; callee-saved registers and stack pointer preserved; "
                    "distinct_nontrivial = programs whose allocated code contains a save/load/move/swap or a register operand replaced by its spill slot; states = programs, transitions = traces = programs x inputs executed";
